@@ -65,6 +65,7 @@ type afObs struct {
 	Outcome string    `json:"outcome"` // nil | error | cancel | hang
 	Err     string    `json:"err"`     // text of Run's / the constructor's error (not compared)
 	Via     string    `json:"via"`     // config map shape used
+	Consume string    `json:"consume"` // consumer discipline (when a delivery is verified)
 }
 
 type afCase struct {
@@ -107,7 +108,7 @@ const afAlnum = "0123456789abcdefghijklmnopqrstuvwxyz"
 func afLong(n int) string {
 	b := make([]byte, n)
 	for i := range b {
-		b[i] = afAlnum[(i*7+i/36)%36]
+		b[i] = afAlnum[(i*7+i/36+n)%36] // depends on n: a shorter run is not a prefix of a longer one
 	}
 	return string(b)
 }
@@ -115,7 +116,7 @@ func afLong(n int) string {
 func afBin(n int) []byte {
 	b := make([]byte, n)
 	for i := range b {
-		b[i] = byte((i*131 + 89) % 256)
+		b[i] = byte(i*131 + (i>>8)*29 + n*17 + 89) // depends on n, period far above 256
 	}
 	return b
 }
@@ -124,7 +125,7 @@ func afText(n int) []byte {
 	const ch = "abc XYZ019\n\r\t\"\\{}[]:,<>&'"
 	b := make([]byte, n)
 	for i := range b {
-		b[i] = ch[(i*5+i/len(ch))%len(ch)]
+		b[i] = ch[(i*5+i/len(ch)+n)%len(ch)]
 	}
 	return b
 }
@@ -359,28 +360,76 @@ func afRunOnce(c *afCase, data []byte) *afObs {
 	runErr := make(chan error, 1)
 	go func() { runErr <- p.Run(ctx, core.ProviderDeps{Log: zap.NewNop(), PoolID: "verif"}) }()
 
-	// the consumer: Acquire, project, Release -- as an instance does
+	// The consumers.  "A delivered request stays what it was": a request is not verified (projected, its body
+	// read) right after its Acquire but while LATER entries are alive, as with several instances sharing the
+	// provider:
+	//   lag   - every delivery is verified after the NEXT Acquire has returned (so the next entry is decoded);
+	//   pair0 - deliveries 1,3,5.. are held while the next one is acquired, verified and released, then verified;
+	//   pair1 - the same for deliveries 2,4,6..
+	// Deliveries are logged in the order of their Acquire.
 	type step struct {
 		d  afDeliv
 		ok bool
 	}
+	obs.Consume = []string{"lag", "lag", "pair0", "pair0", "pair1"}[c.ID%5]
 	steps := make(chan step)
 	stop := make(chan struct{})
 	go func() {
 		defer close(steps)
+		emit := func(s step) bool {
+			select {
+			case steps <- s:
+				return true
+			case <-stop:
+				return false
+			}
+		}
+		use := func(a core.Ammo) step {
+			d := afProject(a)
+			p.Release(a)
+			return step{d, true}
+		}
+		if obs.Consume == "lag" {
+			var held core.Ammo
+			for {
+				a, ok := p.Acquire()
+				if held != nil {
+					if !emit(use(held)) {
+						return
+					}
+					held = nil
+				}
+				if !ok {
+					emit(step{ok: false})
+					return
+				}
+				held = a
+			}
+		}
+		single := obs.Consume == "pair1" // pair1: the first delivery is used at once, pairs start with the second
 		for {
 			a, ok := p.Acquire()
-			var d afDeliv
-			if ok {
-				d = afProject(a)
-				p.Release(a)
-			}
-			select {
-			case steps <- step{d, ok}:
-			case <-stop:
+			if !ok {
+				emit(step{ok: false})
 				return
 			}
-			if !ok {
+			if single {
+				single = false
+				if !emit(use(a)) {
+					return
+				}
+				continue
+			}
+			b, ok2 := p.Acquire()
+			if !ok2 {
+				if emit(use(a)) {
+					emit(step{ok: false})
+				}
+				return
+			}
+			sb := use(b)
+			sa := use(a)
+			if !emit(sa) || !emit(sb) {
 				return
 			}
 		}
